@@ -4423,6 +4423,15 @@ impl WasmGenerator {
         self.emit_value_load(value, func);
         if actual == ValType::F64 {
             func.instruction(&W::I64TruncSatF64S);
+            // A non-finite index selects element 0, as on the VM and in the generated Rust
+            // (`x - x` is zero exactly when `x` is finite).
+            func.instruction(&W::I64Const(0));
+            self.emit_value_load(value, func);
+            self.emit_value_load(value, func);
+            func.instruction(&W::F64Sub);
+            func.instruction(&W::F64Const(0.0));
+            func.instruction(&W::F64Eq);
+            func.instruction(&W::Select);
         }
     }
 
